@@ -246,33 +246,12 @@ def result_class(inp, res):
     return "%s:%s" % (api, "str" if res["val"] else "empty")
 
 
-# ---- diagnosis (refines the signature of a disagreement, never the verdict) --
-
-def nl_translate(bs):
-    return list(bytes(bs).replace(b"\r\n", b"\n").replace(b"\r", b"\n"))
-
-
-def diagnose(ps, w, inp, got):
-    """Name the cause when the code's answer equals its own answer for the
-    input with CR / CRLF replaced by LF (universal-newline translation)."""
-    kind = inp["kind"]
-    field = {"cmdline": "raw", "environ": "block"}.get(kind)
-    if field is None or CR not in inp[field]:
-        return None
-    inp2 = dict(inp)
-    inp2[field] = nl_translate(inp[field])
-    try:
-        build_world(w, inp2)
-        got2 = query(ps, inp2)
-    except Exception:  # noqa: BLE001
-        return None
-    finally:
-        build_world(w, inp)
-    return "newline-translation" if canon(got, kind) == canon(got2, kind) else None
-
-
-def signature(kind, cls, diag):
-    return "%s:%s" % (kind, diag) if diag else cls
+def signature(cls, got, out, kind):
+    """The specification names one cause itself: the answer is the one the
+    record would have after universal-newline translation (out.nl)."""
+    if canon(got, kind) in {canon(a, kind) for a in out.get("nl", ())}:
+        return "newline-translation"
+    return cls
 
 
 # ---- mode 5 replay -------------------------------------------------------------
@@ -299,9 +278,8 @@ def run_chunk(cases):
                     continue
                 allowed = {canon(a, kind) for a in out["allowed"]}
                 if canon(got, kind) not in allowed:
-                    diag = diagnose(ps, w, inp, got)
                     bad.append((i, "%s| %s() -> %s, the specification allows %s  [class %s, input %s]" % (
-                        signature(kind, out["cls"], diag),
+                        signature(out["cls"], got, out, kind),
                         inp["which"] if kind == "link" else kind, show(got, kind),
                         " or ".join(show(a, kind) for a in out["allowed"]), out["cls"], json.dumps(inp))))
                 continue
@@ -382,11 +360,20 @@ def run_cases(ctx, name, cases, chunk=60):
 
 # ---- mode 4: random larger inputs through the code, judged by TLC --------------
 
-ARG_BYTES = [97, 98, 99, SP, SP, 255, 195, 169, 61, 47, 45, 10, 9, 0x80, CR]
+ARG_BYTES = [97, 98, 99, SP, SP, 255, 195, 169, 61, 47, 45, 10, 9, 0x80]
 
 
 def rbytes(rnd, n, alphabet=ARG_BYTES):
     return [rnd.choice(alphabet) for _ in range(n)]
+
+
+def with_cr(rnd, bs, p=0.04):
+    """A few records carry a carriage return (a byte like any other)."""
+    if bs and rnd.random() < p:
+        i = rnd.randrange(len(bs))
+        if bs[i] != NUL:
+            bs = bs[:i] + rnd.choice([[CR], [CR, 10]]) + bs[i + 1:]
+    return bs
 
 
 def gen_cmdline(rnd):
@@ -402,7 +389,7 @@ def gen_cmdline(rnd):
         raw += rnd.choice([[], [], [NUL], [SP]])
     else:             # anything
         raw = rbytes(rnd, rnd.choice([1, 2, 5, 12]), ARG_BYTES + [NUL, NUL, NUL])
-    return {"kind": "cmdline", "raw": raw, "zombie": False}
+    return {"kind": "cmdline", "raw": with_cr(rnd, raw), "zombie": False}
 
 
 ENV_NAMES = [[65], [66], [80, 65, 84, 72], [], [65, 32, 66], [255], [120]]
@@ -421,7 +408,7 @@ def gen_environ(rnd):
         block += ent + [NUL]
     if rnd.random() < 0.2:
         block += rbytes(rnd, rnd.choice([1, 3]), [65, 61, 120])     # unterminated tail
-    return {"kind": "environ", "block": block}
+    return {"kind": "environ", "block": with_cr(rnd, block)}
 
 
 LINK_BASES = [b"/b/x", b"/", b"/b/\xffz", b"/b/x y", b"/b (deleted)/x", b"/\xc3\xa9"]
@@ -451,8 +438,12 @@ def gen_name(rnd):
     # the name the program was started under, the kernel keeps 15 bytes of it
     full = []
     n = rnd.choice([1, 5, 14, 15, 15, 16, 16, 18, 22])
+    ascii_only = rnd.random() < 0.5
     while len(full) < n:
-        full += [195, 169] if rnd.random() < 0.15 else [rnd.choice(NAME_BYTES)]
+        if ascii_only:
+            full += [rnd.choice(NAME_BYTES[:7])]
+        else:
+            full += [195, 169] if rnd.random() < 0.15 else [rnd.choice(NAME_BYTES)]
     full = full[:n] if rnd.random() < 0.8 else full
     comm = full[:15]
     st = rnd.choice(["ok"] * 7 + ["denied", "zombie"])
@@ -498,12 +489,7 @@ def record(ps, w, inp):
         p = build_world(w, inp)
         if inp["kind"] == "exe":
             return {"inp": inp, "got": query_exe(ps, p, inp)}
-        got = query(ps, inp)
-        line = {"inp": inp, "got": got}
-        diag = diagnose(ps, w, inp, got)
-        if diag:
-            line["diag"] = diag
-        return line
+        return {"inp": inp, "got": query(ps, inp)}
     except Exception as ex:  # noqa: BLE001
         return {"inp": inp, "error": repr(ex)}
 
@@ -559,7 +545,7 @@ def judge(ctx, lines, name):
         kind = l["inp"]["kind"]
         nrej += 1
         cls = rejected[i][0]
-        ctx.disagree("conf:" + signature(kind, cls, l.get("diag")),
+        ctx.disagree("conf:" + cls,
                      "TLC rejects a recorded answer: %s -> %s  [class %s, input %s]"
                      % (kind if kind != "link" else l["inp"]["which"],
                         [show(g) for g in l["got"]] if kind == "exe" else show(l["got"], kind), cls, json.dumps(l["inp"])),
